@@ -1580,8 +1580,9 @@ def _escape_docstring(s):
 
 def _format_morphset(obj, indent):
     mstype = 'letter-set' if isinstance(obj, LetterSet) else 'wild-card'
+    characters = re.sub(r'([) \\])', r'\\\1', obj.characters)
     return '{}%({} ({} {}))'.format(
-        ' ' * indent, mstype, obj.var, obj.characters)
+        ' ' * indent, mstype, obj.var, characters)
 
 
 def _format_environment(env, indent):
